@@ -393,7 +393,10 @@ func (d *Decimal) setExponent(c *Context, nd int64, res Condition, xs ...int64) 
 			res |= Clamped
 			r = c.MaxExponent
 		} else {
-			res |= Overflow | Inexact
+			// An overflowed result is by definition also inexact and rounded.
+			// Rounded used to be contributed, for long coefficients only, by the
+			// caller rounding the digits left behind in the infinity.
+			res |= Overflow | Inexact | Rounded
 			d.Form = Infinite
 		}
 	}
